@@ -196,11 +196,34 @@ def run_table(table, dynamics, graph, oracle, rec=None, budget=400, prerun=False
         # an earlier run on the SAME experiment object with other random choices: by C10 it must not influence
         # the observed run (queue, ids, clock, loci, event tables all start afresh)
         from vlib.oracle import Oracle
+        import copy
         install(Oracle(seed=12345))
+        # ... and, every other time, with OTHER parameters: a quarter of the run length and every delay halved, so that it
+        # ends with events still queued for times at which the observed run has posted nothing yet
+        pre = None
+        if prerun == 'vary' or len(repr(table)) % 2 == 0:
+            pre = copy.deepcopy(table)
+            pre['maxtime'] = table['maxtime'] / 4.0
+
+            def halve(acts):
+                for a in acts:
+                    if a and a[0] in ('post', 'poston', 'postrep') and isinstance(a[1], (int, float)):
+                        a[1] = a[1] / 2.0
+            for pr in pre['procs']:
+                halve(pr['setup'])
+            for pg in pre['progs']:
+                halve(pg)
+            for p in procs:
+                p.table = pre
+                p.setMaximumTime(pre['maxtime'])
         try:
             dyn.set({}).run(fatal=True)
         except Exception:
             pass
+        if pre is not None:
+            for p in procs:
+                p.table = table
+                p.setMaximumTime(table['maxtime'])
         del rec.obs[:]
         del rec.ids[:]
         del rec.draws[:]
